@@ -783,7 +783,7 @@ func c13Defaults(res *Result) {
 	lib := map[string]string{"lib.tpl": `{% macro countdown(n) export %}{% if n > 0 %}{{ countdown(n - 1) }}{% else %}done{% endif %}{% endmacro %}` +
 		`{% macro ping(n) export %}{% if n > 0 %}{{ pong(n - 1) }}{% else %}P{% endif %}{% endmacro %}{% macro pong(n) export %}{% if n > 0 %}{{ ping(n - 1) }}{% else %}Q{% endif %}{% endmacro %}`}
 	local := `{% macro countdown(n) %}{% if n > 0 %}{{ countdown(n - 1) }}{% else %}done{% endif %}{% endmacro %}`
-	for _, n := range []int{1, 100, 400, 499, 500, 600, 900, 998, 1200} {
+	for _, n := range []int{1, 100, 400, 499, 500, 600, 900, 997, 998, 999, 1000, 1001, 1200} {
 		res.Cases++
 		a := implRenderFiles(local+fmt.Sprintf("{{ countdown(%d) }}", n), lib, nil)
 		// (under an alias the body's own name for the macro is not defined in the importing file: C13's assumptions)
@@ -1033,6 +1033,258 @@ func c04PairOrder(res *Result) {
 			oracleFail(res, "history", "c04-pair-evaluation-order", src, fmt.Sprintf("%d different outcomes over 40 executions with equal contexts", len(seen)), first)
 		} else if strings.Contains(src, `f("a")`) && !strings.HasSuffix(first, "calls=abcdefghij") {
 			oracleFail(res, "history", "c04-pair-evaluation-order", src, first, "the calls in the order they are written: abcdefghij")
+		}
+	}
+}
+
+// --- round 8 ---
+
+// c05SharedConcurrent: executions running at the same time do not see each other through ExecutionContext.Shared
+func c05SharedConcurrent(res *Result) {
+	registerSharedTag()
+	set := pongo2.NewSet("c05-shared", &memLoader{files: map[string]string{}})
+	tpl := mustCompile(set, "{% verifshared %}-{{ pause() }}{% verifshared %}-{% verifshared %}")
+	if tpl == nil {
+		return
+	}
+	alone := execOnce(tpl, pongo2.Context{"pause": func() string { return "" }}).String()
+	for rep := 0; rep < 10; rep++ {
+		res.Cases += 2
+		hold, held := make(chan struct{}), make(chan struct{})
+		var a, b string
+		var wg sync.WaitGroup
+		wg.Add(1)
+		go func() {
+			defer wg.Done()
+			a = execOnce(tpl, pongo2.Context{"pause": func() string { close(held); <-hold; return "" }}).String()
+		}()
+		<-held
+		b = execOnce(tpl, pongo2.Context{"pause": func() string { return "" }}).String()
+		close(hold)
+		wg.Wait()
+		if a != alone || b != alone {
+			oracleFail(res, "race", "c05-shared-across-executions", "two overlapping executions of a template whose tag counts in ExecutionContext.Shared (one held in a context function while the other runs)", a+" / "+b, alone+" (each as if alone)")
+			return
+		}
+	}
+}
+
+// c06BOM: a byte order mark is three bytes of text like any other, whichever way the source is loaded
+func c06BOM(res *Result) {
+	for _, src := range []string{"\ufeffid;name\r\n1;Müller\r\n", "\ufeff", "\ufeff\ufeffx", "a\ufeffb", "\ufeff{{ 1 }}", "\xef\xbb", "\ufeff{% if 1 %}y{% endif %}"} {
+		want := implRender(src, nil).String()
+		for _, how := range []string{"bytes", "file", "cache", "include"} {
+			res.Cases++
+			if got := implRenderVia(how, src, nil).String(); got != want {
+				oracleFail(res, "render", "c06-bom", fmt.Sprintf("%q through %s", src, how), got, want+" (through FromString)")
+			}
+		}
+	}
+}
+
+// c16BOM: positions in a file that starts with a byte order mark count its three bytes
+func c16BOM(res *Result) {
+	files := map[string]string{"/bom.tpl": "\ufeff<p>{{ user.name|nosuchfilter }}</p>", "/bom2.tpl": "\ufeffline1\n  {{ 7 / zero }}", "/inc.tpl": "x\n{% include \"/bom2.tpl\" %}"}
+	set := pongo2.NewSet("c16-bom", &memLoader{files: files})
+	check := func(what string, err error) {
+		res.Cases++
+		e, ok := err.(*pongo2.Error)
+		if !ok || e == nil || e.Token == nil {
+			oracleFail(res, "positions", "c16-bom-position", what, fmt.Sprint(err), "a positioned *pongo2.Error")
+			return
+		}
+		src, known := files[e.Filename]
+		if !known || !textAt(src, e.Line, e.Column, e.Token.Val, e.Token.Typ == pongo2.TokenString, true) {
+			oracleFail(res, "positions", "c16-bom-position", what, fmt.Sprintf("%s:%d:%d near %q", e.Filename, e.Line, e.Column, e.Token.Val), "the token's text at that position of the named file (the byte order mark counts as three columns)")
+		}
+	}
+	_, err := set.FromFile("/bom.tpl")
+	check("FromFile(/bom.tpl): unknown filter on line 1 behind a byte order mark", err)
+	for _, name := range []string{"/bom2.tpl", "/inc.tpl"} {
+		if tpl, err := set.FromFile(name); err == nil {
+			_, err = tpl.Execute(pongo2.Context{"zero": 0})
+			check("executing "+name+": division by zero on line 2 of a file with a byte order mark", err)
+		}
+	}
+}
+
+// c10Depth: honest nesting far below the cap renders; Super in a definition is rendered each time it is mentioned
+func c10Depth(res *Result) {
+	for _, n := range []int{3, 90, 150, 400, 900} {
+		res.Cases++
+		var base, want strings.Builder
+		for i := 0; i < n; i++ {
+			fmt.Fprintf(&base, "{%% block b%d %%}<%d", i, i%10)
+		}
+		for i := n - 1; i >= 0; i-- {
+			base.WriteString(">{% endblock %}")
+		}
+		for i := 0; i < n; i++ {
+			fmt.Fprintf(&want, "<%d", i%10)
+			if i == n-1 {
+				want.WriteString("[")
+			}
+		}
+		want.WriteString(strings.Repeat(">", 1) + "]" + strings.Repeat(">", n-1))
+		files := map[string]string{"/base.tpl": base.String(), "/leaf.tpl": fmt.Sprintf(`{%% extends "/base.tpl" %%}{%% block b%d %%}[{{ block.Super }}]{%% endblock %%}`, n-1)}
+		set := pongo2.NewSet("c10-depth", &memLoader{files: files})
+		tpl, err := set.FromFile("/leaf.tpl")
+		if err != nil {
+			oracleFail(res, "reference", "c10-nesting-depth", fmt.Sprintf("%d blocks nested in each other, the innermost overridden with block.Super", n), err.Error(), "compiles")
+			continue
+		}
+		// expected: every level opens "<d", the innermost is "[<d>]" … built from the property: the base's document with the innermost definition replaced
+		var exp strings.Builder
+		for i := 0; i < n-1; i++ {
+			fmt.Fprintf(&exp, "<%d", i%10)
+		}
+		fmt.Fprintf(&exp, "[<%d>]", (n-1)%10)
+		exp.WriteString(strings.Repeat(">", n-1))
+		if r := execOnce(tpl, nil); r.out != exp.String() {
+			got := r.String()
+			if len(got) > 200 {
+				got = got[:200] + "…"
+			}
+			oracleFail(res, "reference", "c10-nesting-depth", fmt.Sprintf("%d blocks nested in each other, the innermost overridden with block.Super", n), got, "the base's document with [Super] in the innermost block")
+		}
+	}
+	files := map[string]string{"/b.tpl": `{% block head %}<h1>{{ title }}</h1>{% endblock %}|{% block row %}{% cycle "odd" "even" %}{% endblock %}`,
+		"/c.tpl": `{% extends "/b.tpl" %}{% block head %}{{ block.Super }}{% set title = "Appendix" %}{{ block.Super }}{% endblock %}{% block row %}{% for r in rows %}{{ block.Super }},{% endfor %}{% endblock %}`,
+		"/d.tpl": `{% extends "/c.tpl" %}{% block row %}{% for r in rows %}m<{{ block.Super }}>{% endfor %}{% endblock %}`}
+	fixedRenders(res, "reference", "c10-super-each-time", files, pongo2.Context{"title": "Report", "rows": []int{1, 2, 3}}, [][2]string{
+		{`{% include "/c.tpl" %}`, "<h1>Report</h1><h1>Appendix</h1>|odd,even,odd,"},
+		{`{% include "/d.tpl" %}`, "<h1>Report</h1><h1>Appendix</h1>|m<odd,even,odd,>m<even,odd,even,>m<odd,even,odd,>"},
+	})
+}
+
+// c11UnderscoreNames: names a template may bind (leading underscore included) reach an included template
+func c11UnderscoreNames(res *Result) {
+	files := map[string]string{"row.tpl": "[{{ _x }}|{{ x_ }}|{{ _ }}]"}
+	fixedRenders(res, "loaders", "c11-include-sees-names", files, pongo2.Context{"name": "row.tpl", "_c": "C"}, [][2]string{
+		{`{% set _x = 1 %}{% include "row.tpl" %}`, "[1||]"},
+		{`{% with _x=2 x_=3 %}{% include "row.tpl" %}{% include name %}{% endwith %}`, "[2|3|][2|3|]"},
+		{`{% for _ in "ab" %}{% include "row.tpl" %}{% endfor %}`, "[||a][||b]"},
+		{`{% include "row.tpl" with _x=4 only %}{% include name with _=5 %}`, "[4||][||5]"},
+		{`{{ _c }}{% include "row.tpl" %}`, "C[||]"},
+	})
+}
+
+// c12OddKeys: what is and is not an identifier for a context key
+func c12OddKeys(res *Result) {
+	tpl := mustCompile(pongo2.NewSet("c12-keys", &memLoader{files: map[string]string{}}), "x")
+	for key, ok := range map[string]bool{"a": true, "_a": true, "a1": true, "A_b": true, "_": true, "\u017fum": false, "\u212aey": false, "total\u017f": false, "\u212a": false, "a b": false, "a-b": false, "": false, "\u00e9": false, "a ": false, "\u00df": false, "a.b": false} {
+		for _, via := range []string{"context", "globals"} {
+			res.Cases++
+			set := pongo2.NewSet("c12-keys2", &memLoader{files: map[string]string{}})
+			t := mustCompile(set, "x")
+			ctx := pongo2.Context{key: 1}
+			if via == "globals" {
+				set.Globals[key] = 1
+				ctx = pongo2.Context{"fine": 1}
+			}
+			r := execOnce(t, ctx)
+			if accepted := r.err == ""; accepted != ok {
+				oracleFail(res, "reference", "c12-identifier-keys", fmt.Sprintf("key %q through the %s", key, via), r.String(), fmt.Sprintf("accepted: %v (ASCII letters, digits and _ only)", ok))
+			}
+		}
+	}
+	_ = tpl
+}
+
+// c14PrefilledBuffer: a failing ExecuteWriter leaves what the caller's buffer already held
+func c14PrefilledBuffer(res *Result) {
+	set := pongo2.NewSet("c14-prefilled", &memLoader{files: map[string]string{"/inc.tpl": "inc{{ 1/zero }}"}})
+	for _, src := range []string{"body {{ 1/zero }}", `a{% include "/inc.tpl" %}`, "fine"} {
+		tpl := mustCompile(set, src)
+		if tpl == nil {
+			continue
+		}
+		for _, zero := range []int{0, 1} {
+			res.Cases++
+			var page bytes.Buffer
+			page.WriteString("<header>")
+			err := tpl.ExecuteWriter(pongo2.Context{"zero": zero}, &page)
+			s, serr := tpl.Execute(pongo2.Context{"zero": zero})
+			want := "<header>"
+			if serr == nil {
+				want += s
+			}
+			if (err != nil) != (serr != nil) || page.String() != want {
+				oracleFail(res, "variants", "c14-writer-not-all-or-nothing", fmt.Sprintf("ExecuteWriter(%q, zero=%d) into a *bytes.Buffer that already holds <header>", src, zero), fmt.Sprintf("error %v, buffer %q", err, page.String()), fmt.Sprintf("error %v, buffer %q", serr, want))
+			}
+		}
+	}
+}
+
+// c19Names: a filter applies to any name a context may bear that is not one of the eight reserved words
+func c19Names(res *Result) {
+	for _, name := range []string{"none", "null", "nil", "self", "loop", "end", "block", "with", "only", "if", "for", "filter", "_", "_x", "True", "None", "is", "elif", "empty", "sorted", "reversed", "silent", "parsed", "on", "off"} {
+		res.Cases++
+		ctx := pongo2.Context{name: "val", "missing2": nil}
+		for src, want := range map[string]string{"{{ " + name + "|upper }}": "VAL", "{{ missing|default:" + name + " }}": "val", "{% filter upper %}{{ " + name + " }}{% endfilter %}": "VAL", "{% with q=" + name + "|add:\"!\" %}{{ q }}{% endwith %}": "val!"} {
+			if r := implRender(src, ctx); r.Err != "" || r.Out != want {
+				oracleFail(res, "chain", "c19-any-name", src, r.String(), "ok "+hx(want))
+			}
+		}
+	}
+}
+
+// c20Options: the options of one set are its own
+func c20Options(res *Result) {
+	const src = "{% if 1 %}\n  yes\n{% endif %}\nend"
+	mail := pongo2.NewSet("c20-mail-opt", &memLoader{files: map[string]string{"/page.tpl": src}})
+	web := pongo2.NewSet("c20-web-opt", &memLoader{files: map[string]string{"/page.tpl": src}})
+	mail.Options.TrimBlocks = true
+	mail.Options.LStripBlocks = true
+	later := pongo2.NewSet("c20-later-opt", &memLoader{files: map[string]string{"/page.tpl": src}})
+	res.Cases += 3
+	for name, set := range map[string]*pongo2.TemplateSet{"a set created before another set switched TrimBlocks on": web, "a set created after": later, "the default set": pongo2.DefaultSet} {
+		var tpl *pongo2.Template
+		var err error
+		if set == pongo2.DefaultSet {
+			tpl, err = set.FromString(src)
+		} else {
+			tpl, err = set.FromCache("/page.tpl")
+		}
+		if err != nil {
+			continue
+		}
+		if r := execOnce(tpl, nil); r.out != "\n  yes\n\nend" {
+			oracleFail(res, "cache", "c20-options-shared", name, r.String(), "ok "+hxb("\n  yes\n\nend")+" (options off)")
+		}
+	}
+	if mt, err := mail.FromCache("/page.tpl"); err == nil {
+		res.Cases++
+		if r := execOnce(mt, nil); r.out != "  yes\nend" {
+			oracleFail(res, "cache", "c20-options-shared", "the set whose options were switched on", r.String(), "ok "+hxb("  yes\nend"))
+		}
+	}
+}
+
+// c18Wordwrap: n words a line, nothing after the last word
+func c18Wordwrap(res *Result) {
+	words := []string{"one", "two", "three", "four", "five", "six", "seven", "eight", "nine", "ten", "eleven", "twelve"}
+	for k := 0; k <= len(words); k++ {
+		for n := 1; n <= 6; n++ {
+			res.Cases++
+			in := strings.Join(words[:k], " ")
+			var lines []string
+			for i := 0; i < k; i += n {
+				j := i + n
+				if j > k {
+					j = k
+				}
+				lines = append(lines, strings.Join(words[i:j], " "))
+			}
+			want := strings.Join(lines, "\n")
+			v, err := pongo2.ApplyFilter("wordwrap", pongo2.AsValue(in), pongo2.AsValue(n))
+			if err != nil || v.String() != want {
+				got := "err"
+				if err == nil {
+					got = "ok " + hxb(v.String())
+				}
+				oracleFail(res, "filter", "c18-wordwrap-shape", fmt.Sprintf("%q|wordwrap:%d", in, n), got, "ok "+hxb(want))
+			}
 		}
 	}
 }
